@@ -17,7 +17,7 @@ CHECKS = {
    "arrow2 IPC, lz4, zstd, tar, serde_json are trusted base (exercised, not verified in isolation).",
    "5 C02"),
  "C03": ("model_checking",
-   "complete enumeration over all 784 versions and exhaustive 8/16-bit value sweeps per field against an independent spec table",
+   "complete enumeration over all 784 versions (one-shot and event-by-event API) and exhaustive 8/16-bit value sweeps per field against an independent spec table; plus the history exploration and the cross product of optional dimensions",
    "Every version 0.1..3.16 and every frame-event field: decoded column == big-endian bytes at the SPEC offset, present iff version >= since; all 256 / 65,536 values of 8/16-bit fields, walking bits + IEEE specials for 32-bit fields; checked on Game.frames and on the Arrow array addressed by field name; plus the fixture replays.",
    "32-bit fields not enumerated over 2^32 values; spec tables hand-transcribed and self-checked.",
    "5 C03"),
@@ -27,7 +27,7 @@ CHECKS = {
    "Presence is defined by the reference walker (Pre+Post between a frame's opening and closing events).",
    "5 C04"),
  "C05": ("model_checking",
-   "exhaustive single-byte sweep (every offset x 256 values) of every Game Start length class and full product for Game End, against an independent offset table",
+   "exhaustive single-byte sweep (every offset x 256 values) of every Game Start length class and full product for Game End, against an independent offset table; all 784 versions with frames under every option combination",
    "Every mapped and unmapped byte of each of the 10 Game Start layouts through all 256 values, all 5^4 port-type patterns x teams, NUL at every position of every string field; Game End: every byte x 256 and the full method x LRAS x 6^4 placement product. Fields, optional-field presence, player listing, raw bytes and JSON rendering compared with an independent decode.",
    "encoding_rs Shift-JIS table trusted; unterminated UID/match-id strings are an open zone.",
    "5 C05"),
@@ -42,9 +42,9 @@ CHECKS = {
    "Truncation is modelled as EOF at the cut.",
    "5 C07"),
  "C08": ("model_checking",
-   "exhaustive insertion of unknown events (all singles, all pairs, a triple) at every event boundary; newer-version payload extension per event kind; differential oracle against the same replay without them",
+   "exhaustive insertion of unknown events (all singles, all pairs, a triple; every one of the 246 undefined codes; events cut into Message Splitter blocks) at every event boundary of replays with one, two and no Game End; newer-version payload extension per event kind; differential oracle against the same replay without them",
    "For replays of every framing regime: every placement of 1-3 table-declared unknown events of 5 code/size shapes yields the identical game; versions > 3.16 with +1/+3/+17 trailing bytes on each known event parse to the same known fields.",
-   "Known finding: doubled-Game-End quirk lost when an unknown event follows the first Game End.",
+   "Four defects found here are repaired (6a9aef4, b6fe70b, 000e677); no open finding.",
    "5 C08"),
  "C09": ("model_checking",
    "complete enumeration of all 2^24 version triples for both writers",
